@@ -46,7 +46,8 @@ func builtinMathAtan2(call FunctionCall) Value {
 	if math.IsNaN(x) {
 		return NaNValue()
 	}
-	return float64Value(math.Atan2(y, x))
+	// the result has the sign of y; math.Atan2 loses it when y/x underflows to zero (x < 0)
+	return float64Value(math.Copysign(math.Atan2(y, x), y))
 }
 
 func builtinMathAtanh(call FunctionCall) Value {
